@@ -101,7 +101,7 @@ class Sym:
         object.__setattr__(self, "_p", path)
 
     def __getattr__(self, name):
-        if name.startswith("__"):
+        if name.startswith("__") and name != "__name__":
             raise AttributeError(name)
         if name in JOINED_ATTRS:
             return JoinedSeq(f"{self._p}.{name}")
